@@ -22,7 +22,8 @@ META = {
         "function entry the backend record of that position is not terminal (except bodies of contexts recorded with "
         "ReplayChildren); every value a step delivers equals the generated ground truth (snapshotted at delivery; a third of "
         "the steps' results are edited in place by the handler afterwards). The single-crash enumeration also runs over seven fixed "
-        "small programs (at-most-once steps without retry inside child contexts / branches / try, wait_for_callback, map with waits). Second stage: programs whose steps/children/"
+        "small programs, LinePreempt sweeps over state.py run in a REPLAYING invocation, and a call at a position the backend holds as SUCCEEDED "
+        "never raises a foreign exception (at-most-once steps without retry inside child contexts / branches / try, wait_for_callback, map with waits). Second stage: programs whose steps/children/"
         "conditions use a schema-checking custom serializer that rejects the recorded payloads from invocation k on. Non-trivial = execution with "
         ">=2 invocations in which >=1 completed operation is re-encountered; distinct = (program shape, interruption "
         "pattern = outcomes of the invocations + crash points)."
@@ -32,8 +33,8 @@ META = {
         "the service model (vf/simbackend.py) is the trusted reading of the backend protocol; both pruned and unpruned histories are generated",
     ],
     "budget": {
-        "quick": {"shards": 4, "random_cases": 110, "enum_programs": 6, "min_nontrivial": 40},
-        "thorough": {"shards": 16, "random_cases": 2500, "enum_programs": 120, "min_nontrivial": 800},
+        "quick": {"shards": 4, "random_cases": 110, "enum_programs": 6, "sweep_limit": 400, "min_nontrivial": 40},
+        "thorough": {"shards": 16, "random_cases": 2500, "enum_programs": 120, "sweep_limit": 3000, "min_nontrivial": 800},
     },
 }
 
@@ -168,6 +169,32 @@ def shard(ctx):
             continue
         total[0] += enumerate_crash_points(ctx, {"prog": {"body": body}, "backend": {"response": "delta"}, "plan": {"crashes": []}, "sched": [{"mode": "seq"}], "line": [], "max_raises": 4})
     ctx.extra["crash_points_enumerated"] = total[0]
+    _replay_sweep(ctx)
+
+
+def _replay_sweep(ctx):
+    """One long preemption at every executed source line of state.py in a REPLAYING invocation whose branches mark
+    operations as visited while the background thread merges checkpoint responses into the same tables."""
+    w1, w2 = {"op": "wait", "secs": 1}, {"op": "wait", "secs": 3}
+    bases = [
+        # branch 0 moves on to NEW operations (their responses are merged into the tables) while branch 1 is still
+        # replaying completed ones
+        ("parallel{step; wait 1; step; step | step; step; step; wait 3; step}",
+         [{"op": "parallel", "branches": [[_st(1), w1, _st(2), _st(3)], [_st(4), _st(5), _st(6), w2, _st(7)]], "cfg": _ALL}]),
+        ("map[2]{step; wait; step} next to child{step; step; wait 3}",
+         [{"op": "parallel", "branches": [[{"op": "map", "items": [1, 2], "body": [_st(1), w1, _st(2)], "cfg": {"max_concurrency": None, **_ALL}}],
+                                           [{"op": "child", "body": [_st(3), _st(4)]}, _st(5), w2]], "cfg": _ALL}]),
+    ]
+    for i, (label, body) in enumerate(bases):
+        if ctx.nshards > 1 and i % ctx.nshards != ctx.shard % ctx.nshards:
+            continue
+        base = {"prog": {"body": body}, "backend": {"response": "delta"}, "plan": {"crashes": []}, "line": ["state"]}
+        for order, stall in (("low", 0.25), ("high", 0.0)):
+            # stall: the preempted task is additionally descheduled for 0.25 virtual seconds, so that batches leave and
+            # responses are merged while it sits in the middle of a statement
+            WC.line_preempt_sweep(ctx, base, PROPS, nontrivial=nontrivial, classes=lambda r, c: ["one-long-preemption-at-a-line"] + classes(r, c), inv=1,
+                                  limit=ctx.budget.get("sweep_limit", 400), order=order, stall=stall,
+                                  label=f"replaying invocation, one long preemption per line of state.py ({order}, stall {stall}s): {label}")
 
 
 def replay(case):
